@@ -1,11 +1,260 @@
-(* C34 — Worker channels never lose values or wake-ups. *)
+(* C34 — Worker channels never lose values or wake-ups.
+   Property file: statements, `exact`, non-vacuity examples, assumptions.
+
+   Reading guide.  `oneshot_step`, `mpsc_step`, `notif_step` (Sched/ChannelsModel.v) execute ONE
+   critical_section::with body of oneshot.rs / mpsc.rs / notification.rs through a named sender
+   handle, the receiver, or a waker token.  `run step init ops` is the state after the list of
+   steps `ops`, `trace step init ops` pairs every step with what it returned (return value and the
+   wakers it woke).  Every body is atomic, so a list of steps over several handles IS an
+   interleaving of the threads that own them: `forall ops` = for all interleavings (unbounded).
+     sent_vals tr  values of the accepted sends, in order
+     recv_vals tr  values returned by polls (Ready), in order
+     wakes tr      waker tokens woken, in order
+   A step through a handle that Rust's ownership rules no longer allow to be used (moved into
+   send(), dropped) returns RSkip and changes nothing. *)
 From DustDDS Require Import Base.Machine Sched.ChannelsModel Sched.ChannelsProofs.
 Open Scope Z_scope.
 
+(* ================================================================== mpsc *)
+
+(* exactly once + FIFO + nothing invented: what was received, followed by what is still
+   queued, is exactly what was sent, in order *)
 Theorem C34_mpsc_fifo_exactly_once :
   forall ops,
     recv_vals (trace mpsc_step mpsc_init ops) ++ mi_data (m_in (run mpsc_step mpsc_init ops))
     = sent_vals (trace mpsc_step mpsc_init ops).
 Proof. exact mpsc_fifo_exactly_once. Qed.
 
+(* a poll of the live receiver returns the oldest value sent and not yet received *)
+Theorem C34_mpsc_poll_delivers_oldest :
+  forall ops w v rest,
+    m_recv (run mpsc_step mpsc_init ops) = true ->
+    sent_vals (trace mpsc_step mpsc_init ops) = recv_vals (trace mpsc_step mpsc_init ops) ++ v :: rest ->
+    o_ret (snd (mpsc_step (run mpsc_step mpsc_init ops) (Poll w))) = RReady v.
+Proof. exact mpsc_delivers. Qed.
+
+(* a send through a live handle is always accepted *)
+Theorem C34_mpsc_send_accepted :
+  forall ops h v,
+    hget (m_senders (run mpsc_step mpsc_init ops)) h = HLive ->
+    o_ret (snd (mpsc_step (run mpsc_step mpsc_init ops) (Send h v))) = RUnit.
+Proof. exact mpsc_send_accepted. Qed.
+
+(* no lost wake-up: the poll after `pre` returned Pending with waker w; `mid` is any further
+   interleaving without a poll; if a poll after `mid` would be Ready, then w was woken during `mid` *)
+Theorem C34_mpsc_no_lost_wakeup :
+  forall pre w mid w',
+    let s0 := run mpsc_step mpsc_init pre in
+    let s1 := fst (mpsc_step s0 (Poll w)) in
+    o_ret (snd (mpsc_step s0 (Poll w))) = RPending ->
+    no_poll mid = true ->
+    is_ready (o_ret (snd (mpsc_step (run mpsc_step s1 mid) (Poll w')))) = true ->
+    In w (wakes (trace mpsc_step s1 mid)).
+Proof. exact mpsc_no_lost_wakeup. Qed.
+
+(* wake for every send: a send that finds the receiver still parked wakes exactly its waker *)
+Theorem C34_mpsc_send_wakes_parked_receiver :
+  forall pre w mid h v,
+    let s1 := fst (mpsc_step (run mpsc_step mpsc_init pre) (Poll w)) in
+    o_ret (snd (mpsc_step (run mpsc_step mpsc_init pre) (Poll w))) = RPending ->
+    no_poll mid = true -> ~ In w (wakes (trace mpsc_step s1 mid)) ->
+    o_ret (snd (mpsc_step (run mpsc_step s1 mid) (Send h v))) = RUnit ->
+    o_woke (snd (mpsc_step (run mpsc_step s1 mid) (Send h v))) = [w].
+Proof. exact mpsc_send_wakes_parked. Qed.
+
+(* DEFECT (known finding C34-mpsc-never-closes): mpsc never reports disconnection … *)
+Theorem C34_mpsc_never_reports_disconnection :
+  forall ops w, o_ret (snd (mpsc_step (run mpsc_step mpsc_init ops) (Poll w))) <> RClosed.
+Proof. exact mpsc_never_reports_closed. Qed.
+
+(* … so the disconnection clause is refuted: all senders dropped, nothing ever sent, receiver
+   alive, and the poll still says Pending; the history is in the known class and the strict
+   monitor rejects it *)
+Theorem C34_mpsc_disconnection_refuted :
+  exists ops,
+    mpsc_known_class ops = true /\
+    oracle KMpsc true (trace mpsc_step mpsc_init ops) = false /\
+    all_dropped (m_senders (run mpsc_step mpsc_init ops)) = true /\
+    m_recv (run mpsc_step mpsc_init ops) = true /\
+    sent_vals (trace mpsc_step mpsc_init ops) = [] /\
+    o_ret (snd (mpsc_step (run mpsc_step mpsc_init ops) (Poll 0%nat))) = RPending.
+Proof. exact mpsc_disconnect_refuted. Qed.
+
+(* the whole property (trace monitor `oracle`, ChannelsModel.v: accepted sends, oldest-first
+   delivery, Closed exactly when all senders are dropped and nothing is outstanding, never a
+   parked receiver while a poll would be Ready, no panic) holds for every mpsc history outside
+   the known class, i.e. whenever no step observes disconnection … *)
+Theorem C34_mpsc_property_unless_known :
+  forall ops, mpsc_known_class ops = false ->
+    oracle KMpsc true (trace mpsc_step mpsc_init ops) = true.
+Proof. exact mpsc_oracle_strict_unless_known. Qed.
+
+(* the known class is exactly the family on which the property fails: the strict monitor
+   rejects a history if and only if some step of it observes disconnection *)
+Theorem C34_mpsc_known_class_exact :
+  forall ops,
+    oracle KMpsc true (trace mpsc_step mpsc_init ops) = negb (mpsc_known_class ops).
+Proof. exact mpsc_known_class_exact. Qed.
+
+(* … and with the two disconnection clauses waived it holds for every history *)
+Theorem C34_mpsc_property_except_disconnection :
+  forall ops, oracle KMpsc false (trace mpsc_step mpsc_init ops) = true.
+Proof. exact mpsc_oracle_relaxed. Qed.
+
+(* =============================================================== oneshot *)
+
+(* at most one value is ever sent; it is received at most once, and until then it is stored *)
+Theorem C34_oneshot_exactly_once :
+  forall ops,
+    recv_vals (trace oneshot_step oneshot_init ops)
+      ++ opt_list (oi_data (o_in (run oneshot_step oneshot_init ops)))
+    = sent_vals (trace oneshot_step oneshot_init ops)
+    /\ (length (sent_vals (trace oneshot_step oneshot_init ops)) <= 1)%nat.
+Proof. exact oneshot_exactly_once. Qed.
+
+(* a value sent and not yet received is returned by the next poll *)
+Theorem C34_oneshot_poll_delivers :
+  forall ops w v,
+    o_recv (run oneshot_step oneshot_init ops) = true ->
+    sent_vals (trace oneshot_step oneshot_init ops) = [v] ->
+    recv_vals (trace oneshot_step oneshot_init ops) = [] ->
+    o_ret (snd (oneshot_step (run oneshot_step oneshot_init ops) (Poll w))) = RReady v.
+Proof. exact oneshot_delivers. Qed.
+
+Theorem C34_oneshot_no_lost_wakeup :
+  forall pre w mid w',
+    let s0 := run oneshot_step oneshot_init pre in
+    let s1 := fst (oneshot_step s0 (Poll w)) in
+    o_ret (snd (oneshot_step s0 (Poll w))) = RPending ->
+    no_poll mid = true ->
+    is_ready (o_ret (snd (oneshot_step (run oneshot_step s1 mid) (Poll w')))) = true ->
+    In w (wakes (trace oneshot_step s1 mid)).
+Proof. exact oneshot_no_lost_wakeup. Qed.
+
+(* disconnection is reported exactly when the sender has been dropped and no sent value is
+   outstanding (in particular: dropped without sending) *)
+Theorem C34_oneshot_disconnect_iff :
+  forall ops w,
+    o_recv (run oneshot_step oneshot_init ops) = true ->
+    (o_ret (snd (oneshot_step (run oneshot_step oneshot_init ops) (Poll w))) = RClosed <->
+     all_dropped (o_senders (run oneshot_step oneshot_init ops)) = true /\
+     recv_vals (trace oneshot_step oneshot_init ops) = sent_vals (trace oneshot_step oneshot_init ops)).
+Proof. exact oneshot_disconnect_iff. Qed.
+
+Theorem C34_oneshot_property :
+  forall ops, oracle KOneshot true (trace oneshot_step oneshot_init ops) = true.
+Proof. exact oneshot_oracle. Qed.
+
+(* ========================================================== notification *)
+
+(* sender_count is the number of sender handles not yet dropped (anchor: bookkeeping on drop) *)
+Theorem C34_notification_sender_count :
+  forall ops,
+    ni_count (n_in (run notif_step notif_init ops)) = live_count (n_senders (run notif_step notif_init ops)).
+Proof. exact notif_count. Qed.
+
+(* `sender_count += 1` / `-= 1` never overflow or underflow (debug profile: never panic) *)
+Theorem C34_notification_no_panic :
+  forall ops, Z.of_nat (length ops) < u64_max -> panics (trace notif_step notif_init ops) = false.
+Proof. exact notif_no_panic. Qed.
+
+(* no notification is lost or duplicated: the flag is set exactly when at least one notify
+   happened since the last successful poll (notifications coalesce, by design) *)
+Theorem C34_notification_flag_exact :
+  forall ops,
+    ni_notified (n_in (run notif_step notif_init ops)) = pending_notify (trace notif_step notif_init ops).
+Proof. exact notif_flag. Qed.
+
+Theorem C34_notification_poll_delivers :
+  forall ops w,
+    n_recv (run notif_step notif_init ops) = true ->
+    pending_notify (trace notif_step notif_init ops) = true ->
+    o_ret (snd (notif_step (run notif_step notif_init ops) (Poll w))) = RReady 0.
+Proof. exact notif_delivers. Qed.
+
+Theorem C34_notification_ready_only_if_notified :
+  forall ops w v,
+    o_ret (snd (notif_step (run notif_step notif_init ops) (Poll w))) = RReady v ->
+    pending_notify (trace notif_step notif_init ops) = true /\ v = 0.
+Proof. exact notif_ready_only_if_notified. Qed.
+
+Theorem C34_notification_no_lost_wakeup :
+  forall pre w mid w',
+    let s0 := run notif_step notif_init pre in
+    let s1 := fst (notif_step s0 (Poll w)) in
+    o_ret (snd (notif_step s0 (Poll w))) = RPending ->
+    no_poll mid = true ->
+    is_ready (o_ret (snd (notif_step (run notif_step s1 mid) (Poll w')))) = true ->
+    In w (wakes (trace notif_step s1 mid)).
+Proof. exact notif_no_lost_wakeup. Qed.
+
+(* disconnection is reported exactly when every sender handle (original and clones) has been
+   dropped and no notification is outstanding *)
+Theorem C34_notification_disconnect_iff :
+  forall ops w,
+    n_recv (run notif_step notif_init ops) = true ->
+    (o_ret (snd (notif_step (run notif_step notif_init ops) (Poll w))) = RClosed <->
+     all_dropped (n_senders (run notif_step notif_init ops)) = true /\
+     pending_notify (trace notif_step notif_init ops) = false).
+Proof. exact notif_disconnect_iff. Qed.
+
+Theorem C34_notification_property :
+  forall ops, Z.of_nat (length ops) < u64_max ->
+    oracle KNotif true (trace notif_step notif_init ops) = true.
+Proof. exact notif_oracle. Qed.
+
+(* ============================================================ non-vacuity *)
+
+(* two senders, a parked receiver with waker 7: the send wakes 7, values arrive in order *)
+Example C34_mpsc_nonvacuous :
+  let pre := [Clone 0%nat] in
+  let mid := [Send 1%nat 10; DropS 1%nat; Send 0%nat 20] in
+  let s1 := fst (mpsc_step (run mpsc_step mpsc_init pre) (Poll 7%nat)) in
+  o_ret (snd (mpsc_step (run mpsc_step mpsc_init pre) (Poll 7%nat))) = RPending /\
+  no_poll mid = true /\
+  o_ret (snd (mpsc_step (run mpsc_step s1 mid) (Poll 3%nat))) = RReady 10 /\
+  wakes (trace mpsc_step s1 mid) = [7%nat] /\
+  recv_vals (trace mpsc_step mpsc_init (pre ++ Poll 7%nat :: mid ++ [Poll 3%nat; Poll 3%nat])) = [10; 20] /\
+  mpsc_known_class (pre ++ Poll 7%nat :: mid ++ [Poll 3%nat; Poll 3%nat]) = false.
+Proof. vm_compute. repeat split; reflexivity. Qed.
+
+(* oneshot: interleaving poll / send section / poll / drop section / poll *)
+Example C34_oneshot_nonvacuous :
+  map (fun e => snd e) (trace oneshot_step oneshot_init
+        [Poll 1%nat; Send 0%nat 5; Poll 2%nat; DropS 0%nat; Poll 2%nat])
+  = [mkout RPending []; mkout RUnit [1%nat]; mkout (RReady 5) []; mkout RUnit []; mkout RClosed []]
+  /\ map (fun e => snd e) (trace oneshot_step oneshot_init [Poll 1%nat; DropS 0%nat; Poll 2%nat])
+  = [mkout RPending []; mkout RUnit [1%nat]; mkout RClosed []].
+Proof. vm_compute. split; reflexivity. Qed.
+
+(* notification: the drop of the LAST clone wakes the parked receiver, which then sees Closed *)
+Example C34_notification_nonvacuous :
+  map (fun e => snd e) (trace notif_step notif_init
+        [Clone 0%nat; Poll 4%nat; DropS 0%nat; Send 1%nat 0; Poll 4%nat; Poll 5%nat; DropS 1%nat; Poll 5%nat])
+  = [mkout RUnit []; mkout RPending []; mkout RUnit []; mkout RUnit [4%nat]; mkout (RReady 0) [];
+     mkout RPending []; mkout RUnit [5%nat]; mkout RClosed []].
+Proof. vm_compute. reflexivity. Qed.
+
 Print Assumptions C34_mpsc_fifo_exactly_once.
+Print Assumptions C34_mpsc_poll_delivers_oldest.
+Print Assumptions C34_mpsc_send_accepted.
+Print Assumptions C34_mpsc_no_lost_wakeup.
+Print Assumptions C34_mpsc_send_wakes_parked_receiver.
+Print Assumptions C34_mpsc_never_reports_disconnection.
+Print Assumptions C34_mpsc_disconnection_refuted.
+Print Assumptions C34_mpsc_property_unless_known.
+Print Assumptions C34_mpsc_known_class_exact.
+Print Assumptions C34_mpsc_property_except_disconnection.
+Print Assumptions C34_oneshot_exactly_once.
+Print Assumptions C34_oneshot_poll_delivers.
+Print Assumptions C34_oneshot_no_lost_wakeup.
+Print Assumptions C34_oneshot_disconnect_iff.
+Print Assumptions C34_oneshot_property.
+Print Assumptions C34_notification_sender_count.
+Print Assumptions C34_notification_no_panic.
+Print Assumptions C34_notification_flag_exact.
+Print Assumptions C34_notification_poll_delivers.
+Print Assumptions C34_notification_ready_only_if_notified.
+Print Assumptions C34_notification_no_lost_wakeup.
+Print Assumptions C34_notification_disconnect_iff.
+Print Assumptions C34_notification_property.
